@@ -1,3 +1,4 @@
+#[cfg(not(pendulum_project_ntpd_rs_verif))]
 use std::{
     collections::hash_map::RandomState,
     fmt::Display,
@@ -6,6 +7,16 @@ use std::{
     sync::{Arc, RwLock},
     time::{Duration, Instant},
 };
+#[cfg(pendulum_project_ntpd_rs_verif)]
+use std::{
+    fmt::Display,
+    io::Cursor,
+    net::{AddrParseError, IpAddr},
+    sync::{Arc, RwLock},
+    time::Duration,
+};
+#[cfg(pendulum_project_ntpd_rs_verif)]
+use crate::verif::{SeededState as RandomState, SimInstant as Instant};
 
 use serde::{Deserialize, Deserializer, de};
 
